@@ -310,6 +310,21 @@ package leader
 //@ spec ConfigClass(err) = ErrIs(err, ErrInvalidConfig) || ErrIs(err, ErrPermissionDenied) || ErrIs(err, ErrBucketNotFound)
 //@ spec TimeoutClass(err) = istype(err, *TimeoutError) || ErrAs(err, *TimeoutError)
 
+// The library's own error types keep the text of the error they wrap (the classifiers recognise the NATS client's
+// conflict errors by their text only) and hand it out through Unwrap.
+//@ func (e *ElectionError) Error()
+//@   tags C15
+//@   ensures C15.message_includes_cause: e.Err != nil ==> Includes(result, ErrMsg(e.Err))
+//@ func (e *ElectionError) Unwrap()
+//@   tags C15
+//@   ensures C15.unwrap_returns_cause: result == e.Err
+//@ func (e *TokenValidationError) Error()
+//@   tags C15
+//@   ensures C15.message_includes_cause: e.Err != nil ==> Includes(result, ErrMsg(e.Err))
+//@ func (e *TokenValidationError) Unwrap()
+//@   tags C15
+//@   ensures C15.unwrap_returns_cause: result == e.Err
+
 //@ func IsPermanentError(err)
 //@   tags C15 C03
 //@   flag pure
@@ -318,6 +333,7 @@ package leader
 //@   ensures C15.timeout_transient_wrapped: TimeoutClass(err) ==> !result
 //@   ensures C15.config_perm_wrapped: err != nil && !CtxClass(err) && !TimeoutClass(err) && ConfigClass(err) ==> result
 //@   ensures C15+C03.nats_conflicts_permanent: NatsConflict(err) ==> result
+//@   ensures C15+C03.nats_conflicts_permanent_when_wrapped: KeepsText(err) && NatsConflict(Unwrap(err)) && !CtxClass(err) && !TimeoutClass(err) ==> result
 //@   ensures C15.nats_unreachable_transient: NatsTransient(err) ==> !result
 //@   defines result == Permanent(err)
 
